@@ -75,6 +75,8 @@ func init() {
 		"math/bits.OnesCount64":     extOnesCount(64),
 
 		"strconv.Itoa": extItoa,
+		"internal/stringslite.Clone": func(fr *frame, a []value) value { return a[0] },
+		"strings.Clone":              func(fr *frame, a []value) value { return a[0] },
 		"time.Now":     extZeroResult,
 		"sort.Slice":   extSortSlice,
 
